@@ -54,7 +54,8 @@ reg("C20", harness="c20_zero", level="exploration", deadline=(120, 900),
                "flush against inaccessible pages so an out-of-range read faults, and neighbours are non-zero. Dense families on the same "
                "(variant, length, placement) grid: zeros + non-zero suffix, non-zero prefix + zeros, sliding 64- and 128-byte non-zero windows, "
                "every start, fill ff/01/80 (every byte lane of a vector block non-zero at once); cancelling pairs: a 1/2/4/8-byte word with one non-zero byte "
-               "repeated or two's-complement negated at distance W, 2W, 16..128 at every offset (add / sub / xor accumulation would cancel). Huge part: regions of 2^32-1 .. 2^32+16 MiB bytes "
+               "repeated or two's-complement negated at distance W, 2W, 16..128 at every offset (add / sub / xor accumulation would cancel); long regions of 64 KiB .. 4 MiB x 7 start "
+               "alignments with a single non-zero byte at every offset of the first/last 640 bytes, around every power of two and every 4099th offset. Huge part: regions of 2^32-1 .. 2^32+16 MiB bytes "
                "(zero-page-backed mapping), all-zero and single non-zero bytes at the end / just beyond 4 GiB / in the middle, per variant.",
     level_note="lengths between N and 2^32-1 and multi-byte patterns other than runs (suffix/prefix/window) and cancelling pairs are not enumerated",
     runs=[dict(flavour="sim", part="sweep"), dict(flavour="sim", part="huge")],
@@ -82,7 +83,8 @@ reg("C03", harness="c03_ec", level="exploration", deadline=(240, 1500),
     level_text="For each of the 46 dot-product/encode symbols and the dispatched ec_encode_data/gf_vect_dot_prod under 7 simulated CPU levels: "
                "(a) every len minlen..320 (thorough ..1100) x 64 source offsets x 5 destination offsets + end-flush placement at k=3, (b) 38 "
                "source counts up to 255, (c) rows 1..13 for the high-level entries, (d) all 256 coefficients x all 256 byte values through the "
-               "kernel's main loop and tail, (f) sparse sources: one source zero except a window of 1/8/24/32/64 bytes at every offset, the others zero or dense; "
+               "kernel's main loop and tail, (g) special coefficient matrices (all 0 / all 1 / identity pattern / all 2 / one value per row / only the last column) at k in {1,4,10}, "
+               "(h) the high-level entries at the smallest shapes (k,rows) in {(1,1),(1,2),(2,1),(1,6)} x every length x 2 placements, (f) sparse sources: one source zero except a window of 1/8/24/32/64 bytes at every offset, the others zero or dense; "
                "outputs compared byte for byte with an independent GF(2^8) matrix product, sources read-only or "
                "compared, canaries and inaccessible pages around every buffer.",
     level_note="the full 5-way product is not claimed; the sub-products decide all data only under the no-data-dependent-branch assumption "
@@ -97,7 +99,7 @@ reg("C13", harness="c13_update", level="exploration", deadline=(240, 1500),
     level_text="For each of the 43 multiply-accumulate/update symbols and the dispatched ec_encode_data_update/gf_vect_mad under 7 CPU levels: every "
                "length minlen..320 (thorough ..1100) with accumulate onto non-zero parity at 17 placements, ALL k! update orders for k=1..6 (873 "
                "histories x 3 lengths) each ending with a doubled update that must cancel, k in {10,32,255} in three orders, rows 1..13, the "
-               "full 256x256 multiplication table, sparse sources (zero except a window of 1/8/24/32/64 bytes at every offset); gf_vect_mul_{base,sse,avx,dispatched} for every len 0..700 (2200). Parity is compared with "
+               "full 256x256 multiplication table, sparse sources (zero except a window of 1/8/24/32/64 bytes at every offset), special coefficient matrices; gf_vect_mul_{base,sse,avx,dispatched} for every len 0..700 (2200), also in place (source == destination) at every multiple of 32. Parity is compared with "
                "the reference after EVERY step of every history.",
     level_note="orders for k>6 are three designed ones; data-independence rests on the linearity assumption (dense xorshift data). trusted: ref/ref_gf.h",
     runs=[dict(flavour="sim")],
@@ -229,7 +231,8 @@ reg("C10", harness="c10_bound", level="model_checking", deadline=(360, 1800), ex
                "sequences of non-empty output chunk sizes: every path reaches ZSTATE_END, every call progresses (level 0 also with the RFC "
                "fixed tables and with a hostile custom table that expands the input). (ii-a) big-then-tiny histories on 150 000-byte inputs (log-like / mixed data): a call "
                "given 2000..100 000 bytes with 1..4000 bytes of output, then a call presenting 0/1/7/300 bytes with any flush kind, all named level buffers: exact "
-               "bookkeeping and termination. (ii-b) the state graph with the input arriving in "
+               "bookkeeping and termination; avail_out of 2^31-1 .. 2^32-1 (zero-page-backed mapping) for both compression and both decompression entry points must give the same "
+               "bytes and exact counters as a small ample buffer. (ii-b) the state graph with the input arriving in "
                "several pieces ({0,1,8,rest} x output {0,1,2,5,10,rest} x flush kinds x late end_of_stream): no call writes beyond avail_out "
                "(guard pages) and counters equal bytes moved on every transition. (ii-c) multi-block streams with block-type transitions "
                "(KiBs of text + incompressible + text, minimum level buffer): EVERY first-output-buffer size up to the stream size and every uniform "
@@ -285,7 +288,8 @@ reg("C19", harness="c19_headers", level="model_checking", deadline=(300, 1500), 
                "inflateGetHeader); too-small output must return the required size and leave stream and buffer untouched. Readers: for every "
                "header of a field product the state graph of the real isal_read_gzip_header under ALL chunk sequences from {0,1,2,rest} and 7 "
                "buffer-size modes plus every proper subset of fields discarded (NULL) while the others are collected x 2 growth policies (overflow -> larger buffer keeping delivered bytes -> resume) is explored; recovered fields, "
-               "stop position and statuses are checked; zlib reader under every composition of the header; all byte strings up to length 3 as headers.",
+               "stop position and statuses are checked; zlib reader under every composition of the header; all byte strings up to length 3 as headers; avail_in of 2^31-1 .. 2^32-1 (a whole mapped file "
+               "handed over in one call, zero-page-backed mapping) for both header readers and both inflate entry points.",
     level_note="field values outside the product and chunk sizes outside {0,1,2,rest} are not covered; trusted: ref/ref_hdr.h",
     runs=[dict(flavour="sim", part="writer"), dict(flavour="sim", part="reader")],
     rule="writer case = (field combination, avail_out); reader state = image of inflate_state head + isal_gzip_header + caller buffers + cursor, "
